@@ -99,7 +99,7 @@ def hasPerm0 (env : Env) (user : User) (perm : String) (x : Target) : Bool :=
   if x.hidden then false
   else
     let ar := accessRules env.rules x.entityOf perm
-    if ar.isEmpty then false else decide env user perm x ar
+    if ar.isEmpty then false else evalRules env user perm x ar
 
 theorem hasPermC_of_inv (env : Env) (c : Cache) (h : CacheInv c) (u : User) (p : String) (x : Target) :
     (hasPermC env c u p x).1 = hasPerm0 env u p x ∧ CacheInv (hasPermC env c u p x).2 := by
